@@ -317,3 +317,480 @@ Proof.
   rewrite (app_removelast_last (t, b) (l := (t, b) :: L)) at 2 by discriminate.
   rewrite map_app, last_cons, E. reflexivity.
 Qed.
+
+(* ================= 4. string facts used by the line parser ================= *)
+Lemma find_from_skip c : forall pre rest i, ~ In c pre -> find_from [c] (pre ++ c :: rest) i = (i + Z.of_nat (length pre))%Z.
+Proof.
+  induction pre as [|a pre IH]; intros rest i H; cbn [app find_from startswith length].
+  - rewrite N.eqb_refl. cbn. lia.
+  - destruct (N.eqb_spec c a) as [->|Hne]; [exfalso; apply H; left; reflexivity|]. cbn [andb].
+    rewrite IH by (intro K; apply H; right; exact K). lia.
+Qed.
+
+Lemma slice_from_app pre rest : slice_from (pre ++ rest) (Z.of_nat (length pre)) = rest.
+Proof.
+  unfold slice_from, norm_idx, slen. rewrite app_length.
+  destruct (Z.ltb_spec (Z.of_nat (length pre)) 0); [lia|].
+  rewrite Z.min_l by lia. rewrite Nat2Z.id, skipn_app, skipn_all, Nat.sub_diag. reflexivity.
+Qed.
+
+Lemma find_start_app c pre mid rest k :
+  Z.of_nat (length pre) = k -> ~ In c mid ->
+  find_start [c] (pre ++ mid ++ c :: rest) k = (k + Z.of_nat (length mid))%Z.
+Proof.
+  intros <- Hm. unfold find_start.
+  assert (N : norm_idx (slen (pre ++ mid ++ c :: rest)) (Z.of_nat (length pre)) = Z.of_nat (length pre)).
+  { unfold norm_idx, slen. rewrite app_length. destruct (Z.ltb_spec (Z.of_nat (length pre)) 0); lia. }
+  rewrite N, slice_from_app. unfold find. rewrite find_from_skip by exact Hm.
+  destruct (0 + Z.of_nat (length mid))%Z eqn:E; lia.
+Qed.
+
+Lemma slice_mid (a b c : str) : slice (a ++ b ++ c) (Z.of_nat (length a)) (Z.of_nat (length a) + Z.of_nat (length b)) = b.
+Proof.
+  unfold slice, norm_idx, slen. rewrite !app_length.
+  destruct (Z.ltb_spec (Z.of_nat (length a)) 0); [lia|].
+  destruct (Z.ltb_spec (Z.of_nat (length a) + Z.of_nat (length b)) 0); [lia|].
+  rewrite !Z.min_l by lia. replace (Z.of_nat (length a) + Z.of_nat (length b) - Z.of_nat (length a))%Z with (Z.of_nat (length b)) by lia.
+  rewrite !Nat2Z.id, skipn_app, skipn_all, Nat.sub_diag. cbn [skipn app].
+  rewrite firstn_app, firstn_all, Nat.sub_diag. cbn. apply app_nil_r.
+Qed.
+
+(* clean text: starts and ends with a non-blank character and contains no colon *)
+Definition head_ok (d : str) : bool := match d with c :: _ => negb (is_space c) | [] => false end.
+Definition clean (d : str) : bool := head_ok d && head_ok (rev d) && no_colon d.
+Definition blank (s : str) : bool := forallb is_space s.
+
+Lemma lstrip_blank_app s d : blank s = true -> lstrip (s ++ d) = lstrip d.
+Proof. induction s as [|c s IH]; cbn; [reflexivity|]. intro H. apply andb_true_iff in H as [H1 H2]. rewrite H1. auto. Qed.
+Lemma lstrip_head_ok d : head_ok d = true -> lstrip d = d.
+Proof. destruct d as [|c r]; cbn; [discriminate|]. intro H. apply negb_true_iff in H. rewrite H. reflexivity. Qed.
+Lemma blank_rev s : blank (rev s) = blank s.
+Proof. unfold blank. induction s as [|c s IH]; cbn; [reflexivity|]. rewrite forallb_app, IH. cbn. rewrite andb_true_r. apply andb_comm. Qed.
+
+Lemma strip_padded s1 d s2 : blank s1 = true -> blank s2 = true -> head_ok d = true -> head_ok (rev d) = true -> strip (s1 ++ d ++ s2) = d.
+Proof.
+  intros B1 B2 H1 H2. unfold strip, rstrip. rewrite lstrip_blank_app by exact B1.
+  rewrite (lstrip_head_ok (d ++ s2)) by (destruct d; [discriminate | exact H1]).
+  rewrite rev_app_distr, lstrip_blank_app by (rewrite blank_rev; exact B2).
+  rewrite lstrip_head_ok by exact H2. apply rev_involutive.
+Qed.
+
+Lemma no_colon_app a b : no_colon (a ++ b) = no_colon a && no_colon b.
+Proof. apply forallb_app. Qed.
+Lemma no_colon_not_in d : no_colon d = true -> ~ In COLON d.
+Proof.
+  unfold no_colon. rewrite forallb_forall. intros H K. specialize (H _ K). rewrite N.eqb_refl in H. discriminate.
+Qed.
+
+(* a type without backtick is what is left after removing the fence *)
+Definition no_bt (t : str) : bool := forallb (fun c => negb (c =? BT)) t.
+Lemma split_no_bt : forall fuel t cur, no_bt t = true -> (length t < fuel)%nat -> split_str_aux fuel [BT; BT; BT] t cur = [rev cur ++ t].
+Proof.
+  induction fuel as [|f IH]; intros t cur H Hl; [lia|]. cbn [split_str_aux]. destruct t as [|c r]; [rewrite app_nil_r; reflexivity|].
+  unfold no_bt in H. cbn [forallb] in H. apply andb_true_iff in H as [Hc Hr]. apply negb_true_iff in Hc.
+  cbn [startswith]. rewrite N.eqb_sym, Hc. cbn [andb].
+  rewrite IH by (try exact Hr; cbn in Hl; lia). cbn [rev]. rewrite <- app_assoc. reflexivity.
+Qed.
+Lemma replace_no_bt t : no_bt t = true -> replace [BT; BT; BT] [] t = t.
+Proof. intro H. unfold replace, split_str. rewrite split_no_bt by (try exact H; lia). reflexivity. Qed.
+
+(* ================= 5. what the line parser reads off a token line ================= *)
+Definition T_param : str := Eval vm_compute in s2l ":param".
+Definition T_type : str := Eval vm_compute in s2l ":type".
+Definition T_return : str := Eval vm_compute in s2l ":return".
+Definition T_rtype : str := Eval vm_compute in s2l ":rtype".
+Definition FENCE : str := [BT; BT; BT].
+
+Definition name_ok (n : str) : bool :=
+  negb (Nat.eqb (length n) 0) && forallb (fun c => negb (c =? SP) && negb (c =? COLON)) n && negb (startswith [STAR] n).
+
+Lemma name_ok_no_sp n : name_ok n = true -> ~ In SP n.
+Proof.
+  unfold name_ok. intros H K. apply andb_true_iff in H as [H _]. apply andb_true_iff in H as [_ H].
+  rewrite forallb_forall in H. specialize (H _ K). rewrite N.eqb_refl in H. discriminate.
+Qed.
+Lemma name_ok_no_colon n : name_ok n = true -> ~ In COLON n.
+Proof.
+  unfold name_ok. intros H K. apply andb_true_iff in H as [H _]. apply andb_true_iff in H as [_ H].
+  rewrite forallb_forall in H. specialize (H _ K). rewrite N.eqb_refl, andb_false_r in H. discriminate.
+Qed.
+Lemma name_ok_no_colon_b n : name_ok n = true -> no_colon n = true.
+Proof.
+  unfold name_ok, no_colon. intro H. apply andb_true_iff in H as [H _]. apply andb_true_iff in H as [_ H].
+  rewrite forallb_forall in *. intros c Hc. specialize (H c Hc). apply andb_true_iff in H as [_ H]. exact H.
+Qed.
+
+(* the current entry after seeing a line for parameter [n] *)
+Definition cur_entry (s : pstate) (n : str) : pentry :=
+  match st_cur s with Some (n0, e0) => if str_eqb n0 n then e0 else empty_entry | None => empty_entry end.
+Definition params_after (s : pstate) (n : str) : list (str * pentry) :=
+  match st_cur s with Some (n0, e0) => if str_eqb n0 n then st_params s else flush s | None => st_params s end.
+
+Lemma parse_named_line (tok : str) (is_typ : bool) s n body :
+  ~ In SP tok ->
+  (forall X, existsb (fun t => startswith t (tok ++ X)) return_tokens = false) ->
+  (forall X, startswith (s2l ":type") (tok ++ X) = is_typ) ->
+  name_ok n = true ->
+  parse_token_line s (tok ++ SP :: n ++ COLON :: body)
+  = {| st_doc := st_doc s; st_params := params_after s n; st_ret := st_ret s;
+       st_cur := Some (n, if is_typ then set_typ (cur_entry s n) (typ_value (strip body)) else set_doc (cur_entry s n) (strip body)) |}.
+Proof.
+  intros Hsp Hret Htyp Hn. unfold parse_token_line. rewrite Hret, Htyp.
+  assert (F1 : find [SP] (tok ++ SP :: n ++ COLON :: body) = Z.of_nat (length tok)).
+  { unfold find. rewrite find_from_skip by exact Hsp. lia. }
+  rewrite F1.
+  assert (F2 : find_start [COLON] (tok ++ SP :: n ++ COLON :: body) (Z.of_nat (length tok)) = (Z.of_nat (length tok) + Z.of_nat (length (SP :: n)))%Z).
+  { change (tok ++ SP :: n ++ COLON :: body) with (tok ++ (SP :: n) ++ COLON :: body).
+    apply find_start_app; [reflexivity|]. intros [K|K]; [discriminate | exact (name_ok_no_colon n Hn K)]. }
+  rewrite F2.
+  assert (N : slice (tok ++ SP :: n ++ COLON :: body) (Z.of_nat (length tok) + 1) (Z.of_nat (length tok) + Z.of_nat (length (SP :: n))) = n).
+  { replace (tok ++ SP :: n ++ COLON :: body) with ((tok ++ [SP]) ++ n ++ COLON :: body) by (rewrite <- app_assoc; reflexivity).
+    replace (Z.of_nat (length tok) + 1)%Z with (Z.of_nat (length (tok ++ [SP]))) by (rewrite app_length; cbn; lia).
+    replace (Z.of_nat (length tok) + Z.of_nat (length (SP :: n)))%Z with (Z.of_nat (length (tok ++ [SP])) + Z.of_nat (length n))%Z
+      by (rewrite app_length; cbn [length]; lia).
+    apply slice_mid. }
+  rewrite N.
+  assert (V : slice_from (tok ++ SP :: n ++ COLON :: body) (Z.of_nat (length tok) + Z.of_nat (length (SP :: n)) + 1) = body).
+  { replace (tok ++ SP :: n ++ COLON :: body) with ((tok ++ SP :: n ++ [COLON]) ++ body) by (rewrite <- !app_assoc; cbn; rewrite <- app_assoc; reflexivity).
+    replace (Z.of_nat (length tok) + Z.of_nat (length (SP :: n)) + 1)%Z with (Z.of_nat (length (tok ++ SP :: n ++ [COLON])))
+      by (rewrite !app_length; cbn [length]; rewrite app_length; cbn [length]; lia).
+    apply slice_from_app. }
+  rewrite V. unfold params_after, cur_entry.
+  destruct (st_cur s) as [[n0 e0]|]; [destruct (str_eqb n0 n)|]; destruct is_typ; reflexivity.
+Qed.
+
+Lemma parse_return_line (l : str) (is_rtype : bool) s body :
+  no_colon l = true ->
+  (forall X, existsb (fun t => startswith t ((COLON :: l) ++ X)) return_tokens = true) ->
+  (forall X, startswith (s2l ":rtype") ((COLON :: l) ++ X) = is_rtype) ->
+  parse_token_line s ((COLON :: l) ++ COLON :: body)
+  = {| st_doc := st_doc s; st_params := st_params s;
+       st_ret := Some (let e := match st_ret s with Some e => e | None => empty_entry end in
+                       if is_rtype then set_typ e (typ_value (strip body)) else set_doc e (strip body));
+       st_cur := st_cur s |}.
+Proof.
+  intros Hl Hret Hrt. unfold parse_token_line. rewrite Hret, Hrt.
+  assert (F : find_start [COLON] ((COLON :: l) ++ COLON :: body) 1 = (1 + Z.of_nat (length l))%Z).
+  { change ((COLON :: l) ++ COLON :: body) with ([COLON] ++ l ++ COLON :: body). apply find_start_app; [reflexivity | apply no_colon_not_in, Hl]. }
+  rewrite F.
+  assert (V : slice_from ((COLON :: l) ++ COLON :: body) (1 + Z.of_nat (length l) + 1) = body).
+  { replace ((COLON :: l) ++ COLON :: body) with (((COLON :: l) ++ [COLON]) ++ body) by (rewrite <- app_assoc; reflexivity).
+    replace (1 + Z.of_nat (length l) + 1)%Z with (Z.of_nat (length ((COLON :: l) ++ [COLON]))) by (rewrite app_length; cbn [length]; lia).
+    apply slice_from_app. }
+  rewrite V. destruct is_rtype; reflexivity.
+Qed.
+
+Definition typ_ok (t : str) : bool := negb (Nat.eqb (length t) 0) && no_bt t && negb (startswith [STAR; STAR] t) && no_colon t.
+
+Lemma split_fenced_tail : forall fuel t cur, no_bt t = true -> (length t + 4 <= fuel)%nat ->
+  split_str_aux fuel FENCE (t ++ FENCE) cur = [rev cur ++ t; []].
+Proof.
+  induction fuel as [|f IH]; intros t cur H Hl; [lia|]. destruct t as [|c r].
+  - destruct f as [|f']; [cbn in Hl; lia|]. cbn. rewrite app_nil_r. reflexivity.
+  - unfold no_bt in H. cbn [forallb] in H. apply andb_true_iff in H as [Hc Hr]. apply negb_true_iff in Hc.
+    unfold FENCE at 1 2. cbn [app split_str_aux startswith]. rewrite N.eqb_sym, Hc. cbn [andb].
+    change [BT; BT; BT] with FENCE. rewrite IH by (try exact Hr; cbn in Hl; lia). cbn [rev]. rewrite <- app_assoc. reflexivity.
+Qed.
+
+Lemma typ_value_fenced t : typ_ok t = true -> typ_value (FENCE ++ t ++ FENCE) = t.
+Proof.
+  unfold typ_ok. intro H. apply andb_true_iff in H as [H _]. apply andb_true_iff in H as [H Hs]. apply andb_true_iff in H as [_ Hb].
+  unfold typ_value. change (s2l "```") with FENCE.
+  assert (R : replace FENCE [] (FENCE ++ t ++ FENCE) = t).
+  { unfold replace, split_str.
+    assert (E : forall fuel, split_str_aux (S fuel) FENCE (FENCE ++ t ++ FENCE) [] = [] :: split_str_aux fuel FENCE (t ++ FENCE) []).
+    { intro fuel. unfold FENCE at 1 2. cbn [app split_str_aux startswith]. rewrite !N.eqb_refl. reflexivity. }
+    rewrite E, split_fenced_tail by (try exact Hb; rewrite !app_length; cbn; lia).
+    cbn. rewrite app_nil_r. reflexivity. }
+  rewrite R. apply negb_true_iff in Hs. rewrite Hs. reflexivity.
+Qed.
+
+Lemma strip_fenced t sep : blank sep = true -> strip (SP :: (FENCE ++ t ++ FENCE) ++ sep) = FENCE ++ t ++ FENCE.
+Proof.
+  intro B. apply (strip_padded [SP] (FENCE ++ t ++ FENCE) sep); [reflexivity | exact B | reflexivity |].
+  rewrite !rev_app_distr. reflexivity.
+Qed.
+
+Lemma clean_parts d : clean d = true -> head_ok d = true /\ head_ok (rev d) = true /\ no_colon d = true.
+Proof. unfold clean. intro H. apply andb_true_iff in H as [H H3]. apply andb_true_iff in H as [H1 H2]. auto. Qed.
+
+Lemma not_in_sp_param : ~ In SP T_param. Proof. intro H. cbn in H. repeat (destruct H as [H|H]; [discriminate|]). exact H. Qed.
+Lemma not_in_sp_type : ~ In SP T_type. Proof. intro H. cbn in H. repeat (destruct H as [H|H]; [discriminate|]). exact H. Qed.
+
+Lemma parse_doc_line s n d sep : name_ok n = true -> clean d = true -> blank sep = true ->
+  parse_token_line s (T_param ++ SP :: n ++ COLON :: SP :: d ++ sep)
+  = {| st_doc := st_doc s; st_params := params_after s n; st_ret := st_ret s; st_cur := Some (n, set_doc (cur_entry s n) d) |}.
+Proof.
+  intros Hn Hd Hs. destruct (clean_parts d Hd) as [D1 [D2 _]].
+  rewrite (parse_named_line T_param false s n (SP :: d ++ sep) not_in_sp_param); try exact Hn;
+    try (intro X; vm_compute; reflexivity).
+  change (SP :: d ++ sep) with ([SP] ++ d ++ sep). rewrite (strip_padded [SP] d sep) by (try reflexivity; assumption). reflexivity.
+Qed.
+
+Lemma parse_typ_line s n t sep : name_ok n = true -> typ_ok t = true -> blank sep = true ->
+  parse_token_line s (T_type ++ SP :: n ++ COLON :: SP :: (FENCE ++ t ++ FENCE) ++ sep)
+  = {| st_doc := st_doc s; st_params := params_after s n; st_ret := st_ret s; st_cur := Some (n, set_typ (cur_entry s n) t) |}.
+Proof.
+  intros Hn Ht Hs.
+  rewrite (parse_named_line T_type true s n (SP :: (FENCE ++ t ++ FENCE) ++ sep) not_in_sp_type); try exact Hn;
+    try (intro X; vm_compute; reflexivity).
+  rewrite strip_fenced by exact Hs. rewrite typ_value_fenced by exact Ht. reflexivity.
+Qed.
+
+Lemma parse_rdoc_line s d sep : clean d = true -> blank sep = true ->
+  parse_token_line s (T_return ++ COLON :: SP :: d ++ sep)
+  = {| st_doc := st_doc s; st_params := st_params s;
+       st_ret := Some (set_doc (match st_ret s with Some e => e | None => empty_entry end) d); st_cur := st_cur s |}.
+Proof.
+  intros Hd Hs. destruct (clean_parts d Hd) as [D1 [D2 _]].
+  change T_return with (COLON :: tl T_return).
+  rewrite (parse_return_line (tl T_return) false s (SP :: d ++ sep)); try reflexivity; try (intro X; vm_compute; reflexivity).
+  change (SP :: d ++ sep) with ([SP] ++ d ++ sep). rewrite (strip_padded [SP] d sep) by (try reflexivity; assumption). reflexivity.
+Qed.
+
+Lemma parse_rtyp_line s t sep : typ_ok t = true -> blank sep = true ->
+  parse_token_line s (T_rtype ++ COLON :: SP :: (FENCE ++ t ++ FENCE) ++ sep)
+  = {| st_doc := st_doc s; st_params := st_params s;
+       st_ret := Some (set_typ (match st_ret s with Some e => e | None => empty_entry end) t); st_cur := st_cur s |}.
+Proof.
+  intros Ht Hs. change T_rtype with (COLON :: tl T_rtype).
+  rewrite (parse_return_line (tl T_rtype) true s (SP :: (FENCE ++ t ++ FENCE) ++ sep)); try reflexivity; try (intro X; vm_compute; reflexivity).
+  rewrite strip_fenced by exact Hs. rewrite typ_value_fenced by exact Ht. reflexivity.
+Qed.
+
+(* ================= 6. the lines of a parameter list, scanned and folded ================= *)
+Definition entry_ok (e : pentry) : bool :=
+  match pe_doc e, pe_typ e with
+  | None, None => false
+  | od, ot => (match od with Some d => clean d | None => true end) && (match ot with Some t => typ_ok t | None => true end)
+  end.
+
+Definition named_body (n rest : str) : str := SP :: n ++ COLON :: SP :: rest.
+Definition fenced (t : str) : str := FENCE ++ t ++ FENCE.
+
+Definition param_lines (n : str) (e : pentry) (sep : str) : list (str * str) :=
+  match pe_doc e, pe_typ e with
+  | Some d, Some t => [(T_param, named_body n (d ++ [NL])); (T_type, named_body n (fenced t ++ sep))]
+  | Some d, None => [(T_param, named_body n (d ++ sep))]
+  | None, Some t => [(T_type, named_body n (fenced t ++ sep))]
+  | None, None => []
+  end.
+Definition ret_lines (e : pentry) (sep : str) : list (str * str) :=
+  match pe_doc e, pe_typ e with
+  | Some d, Some t => [(T_return, COLON :: SP :: d ++ [NL]); (T_rtype, COLON :: SP :: fenced t ++ sep)]
+  | Some d, None => [(T_return, COLON :: SP :: d ++ sep)]
+  | None, Some t => [(T_rtype, COLON :: SP :: fenced t ++ sep)]
+  | None, None => []
+  end.
+Fixpoint lines_params (ps : list (str * pentry)) (final_sep : str) : list (str * str) :=
+  match ps with
+  | [] => []
+  | [(n, e)] => param_lines n e final_sep
+  | (n, e) :: r => param_lines n e [NL; NL] ++ lines_params r final_sep
+  end.
+Definition seg_of (tb : str * str) : seg := (true, cat tb).
+
+(* -- the bodies are inert for the scanner -- *)
+Lemma dead_param_sp : dead (T_param ++ [SP]) = true. Proof. vm_compute. reflexivity. Qed.
+Lemma dead_type_sp : dead (T_type ++ [SP]) = true. Proof. vm_compute. reflexivity. Qed.
+Lemma dead_colon_sp : dead [COLON; SP] = true. Proof. vm_compute. reflexivity. Qed.
+
+Lemma keys_after_colon_sp key rest : no_colon rest = true -> keys_ok key (COLON :: SP :: rest) = true.
+Proof.
+  intro H. rewrite keys_ok_reset. change (COLON :: SP :: rest) with ([COLON; SP] ++ rest). rewrite keys_ok_app.
+  replace (keys_ok None [COLON; SP]) with true by (vm_compute; reflexivity).
+  replace (advance None [COLON; SP]) with (Some [COLON; SP]) by (vm_compute; reflexivity).
+  cbn [andb]. apply (keys_ok_dead rest [COLON; SP] dead_colon_sp H).
+Qed.
+
+Lemma named_body_ok t n rest : dead (t ++ [SP]) = true -> no_colon n = true -> no_colon rest = true ->
+  keys_ok (Some t) (named_body n rest) = true.
+Proof.
+  intros Hd Hn Hr. unfold named_body. change (SP :: n ++ COLON :: SP :: rest) with ([SP] ++ n ++ COLON :: SP :: rest).
+  rewrite !keys_ok_app.
+  assert (A1 : advance (Some t) [SP] = Some (t ++ [SP])) by reflexivity.
+  assert (K1 : keys_ok (Some t) [SP] = true).
+  { cbn [keys_ok]. change (advance1 (Some t) SP) with (Some (t ++ [SP])). apply andb_true_iff. split; [apply dead_not_token, Hd | reflexivity]. }
+  destruct (keys_ok_dead n (t ++ [SP]) Hd Hn) as [K A].
+  apply andb_true_iff; split; [exact K1|]. apply andb_true_iff; split; [exact K | apply keys_after_colon_sp, Hr].
+Qed.
+
+Lemma no_colon_blank_nl : no_colon [NL] = true /\ no_colon [NL; NL] = true. Proof. split; reflexivity. Qed.
+Lemma no_colon_fenced t : no_colon t = true -> no_colon (fenced t) = true.
+Proof. intro H. unfold fenced. rewrite !no_colon_app, H. reflexivity. Qed.
+Lemma typ_ok_no_colon t : typ_ok t = true -> no_colon t = true.
+Proof. unfold typ_ok. intro H. apply andb_true_iff in H as [_ H]. exact H. Qed.
+
+Lemma param_lines_ok n e sep : name_ok n = true -> entry_ok e = true -> no_colon sep = true -> Forall line_ok (param_lines n e sep).
+Proof.
+  intros Hn He Hs. pose proof (name_ok_no_colon_b n Hn) as Nn. unfold param_lines, entry_ok in *.
+  destruct (pe_doc e) as [d|], (pe_typ e) as [t|]; try discriminate;
+    repeat match goal with H : _ && _ = true |- _ => apply andb_true_iff in H as [? ?] end;
+    repeat (apply Forall_cons; [split; cbn [fst snd]|]); try apply Forall_nil;
+    try (vm_compute; tauto);
+    try (apply named_body_ok; [first [exact dead_param_sp | exact dead_type_sp] | exact Nn |
+          rewrite no_colon_app; apply andb_true_iff; split;
+          [first [apply no_colon_fenced, typ_ok_no_colon; assumption | apply clean_parts; assumption] | first [exact Hs | reflexivity]]]).
+Qed.
+
+Lemma ret_lines_ok e sep : entry_ok e = true -> no_colon sep = true -> Forall line_ok (ret_lines e sep).
+Proof.
+  intros He Hs. unfold ret_lines, entry_ok in *.
+  destruct (pe_doc e) as [d|], (pe_typ e) as [t|]; try discriminate;
+    repeat match goal with H : _ && _ = true |- _ => apply andb_true_iff in H as [? ?] end;
+    repeat (apply Forall_cons; [split; cbn [fst snd]|]); try apply Forall_nil;
+    try (vm_compute; tauto);
+    try (apply keys_after_colon_sp; rewrite no_colon_app; apply andb_true_iff; split;
+          [first [apply no_colon_fenced, typ_ok_no_colon; assumption | apply clean_parts; assumption] | first [exact Hs | reflexivity]]).
+Qed.
+
+(* -- folding the line parser over the lines of one parameter, of all parameters, of the return entry -- *)
+Lemma str_eqb_neq a b : a <> b -> str_eqb a b = false.
+Proof. intro H. destruct (str_eqb a b) eqn:E; [|reflexivity]. apply str_eqb_eq in E. contradiction. Qed.
+
+Lemma set_assoc_fresh k v : forall l, ~ In k (map fst l) -> set_assoc k v l = l ++ [(k, v)].
+Proof.
+  induction l as [|[k' v'] l IH]; intro H; cbn [set_assoc app]; [reflexivity|].
+  rewrite str_eqb_neq by (intro E; apply H; left; symmetry; exact E). rewrite IH by (intro K; apply H; right; exact K). reflexivity.
+Qed.
+
+Lemma cur_fresh s n : (forall n0 e0, st_cur s = Some (n0, e0) -> n0 <> n) -> cur_entry s n = empty_entry /\ params_after s n = flush s.
+Proof.
+  intro H. unfold cur_entry, params_after, flush. destruct (st_cur s) as [[n0 e0]|]; [|auto].
+  rewrite (str_eqb_neq n0 n) by (apply (H n0 e0); reflexivity). auto.
+Qed.
+
+Lemma blank_nl : blank [NL] = true /\ blank [NL; NL] = true. Proof. split; reflexivity. Qed.
+
+Lemma parse_seg_token s line : parse_seg s (true, line) = parse_token_line s line. Proof. reflexivity. Qed.
+
+Lemma fold_param_block s n e sep : name_ok n = true -> entry_ok e = true -> blank sep = true ->
+  (forall n0 e0, st_cur s = Some (n0, e0) -> n0 <> n) ->
+  fold_left parse_seg (map seg_of (param_lines n e sep)) s
+  = {| st_doc := st_doc s; st_params := flush s; st_ret := st_ret s; st_cur := Some (n, e) |}.
+Proof.
+  intros Hn He Hs Hf. destruct (cur_fresh s n Hf) as [C P]. destruct e as [od ot]. unfold param_lines, entry_ok in *. cbn [pe_doc pe_typ] in *.
+  destruct od as [d|], ot as [t|]; try discriminate; try (apply andb_true_iff in He as [Hd Ht]);
+    cbn [map fold_left]; unfold seg_of, cat, named_body; cbn [fst snd]; rewrite ?parse_seg_token.
+  - rewrite (parse_doc_line s n d [NL] Hn Hd eq_refl), C, P.
+    change (T_type ++ SP :: n ++ COLON :: SP :: fenced t ++ sep) with (T_type ++ SP :: n ++ COLON :: SP :: (FENCE ++ t ++ FENCE) ++ sep).
+    rewrite (parse_typ_line _ n t sep Hn Ht Hs). unfold cur_entry, params_after. cbn [st_cur st_params st_doc st_ret].
+    rewrite str_eqb_refl. reflexivity.
+  - rewrite (parse_doc_line s n d sep Hn Hd Hs), C, P. reflexivity.
+  - change (T_type ++ SP :: n ++ COLON :: SP :: fenced t ++ sep) with (T_type ++ SP :: n ++ COLON :: SP :: (FENCE ++ t ++ FENCE) ++ sep).
+    rewrite (parse_typ_line s n t sep Hn Ht Hs), C, P. reflexivity.
+Qed.
+
+Lemma fold_ret_lines s e sep : entry_ok e = true -> blank sep = true -> st_ret s = None ->
+  fold_left parse_seg (map seg_of (ret_lines e sep)) s
+  = {| st_doc := st_doc s; st_params := st_params s; st_ret := Some e; st_cur := st_cur s |}.
+Proof.
+  intros He Hs Hr. destruct e as [od ot]. unfold ret_lines, entry_ok in *. cbn [pe_doc pe_typ] in *.
+  destruct od as [d|], ot as [t|]; try discriminate; try (apply andb_true_iff in He as [Hd Ht]);
+    cbn [map fold_left]; unfold seg_of, cat; cbn [fst snd]; rewrite ?parse_seg_token.
+  - rewrite (parse_rdoc_line s d [NL] Hd eq_refl).
+    change (T_rtype ++ COLON :: SP :: fenced t ++ sep) with (T_rtype ++ COLON :: SP :: (FENCE ++ t ++ FENCE) ++ sep).
+    rewrite (parse_rtyp_line _ t sep Ht Hs). cbn [st_cur st_params st_doc st_ret]. rewrite Hr. reflexivity.
+  - rewrite (parse_rdoc_line s d sep Hd Hs), Hr. reflexivity.
+  - change (T_rtype ++ COLON :: SP :: fenced t ++ sep) with (T_rtype ++ COLON :: SP :: (FENCE ++ t ++ FENCE) ++ sep).
+    rewrite (parse_rtyp_line s t sep Ht Hs), Hr. reflexivity.
+Qed.
+
+Definition param_ok (p : str * pentry) : bool := name_ok (fst p) && entry_ok (snd p).
+
+Lemma name_ok_not_star n : name_ok n = true -> startswith [STAR] n = false.
+Proof. unfold name_ok. intro H. apply andb_true_iff in H as [_ H]. apply negb_true_iff in H. exact H. Qed.
+
+Lemma fold_params : forall ps s fs, blank fs = true -> forallb param_ok ps = true -> NoDup (map fst ps) ->
+  (forall n0 e0, st_cur s = Some (n0, e0) -> ~ In n0 (map fst ps)) ->
+  (forall n, In n (map fst ps) -> ~ In n (map fst (flush s))) ->
+  let s' := fold_left parse_seg (map seg_of (lines_params ps fs)) s in
+  flush s' = flush s ++ ps /\ st_doc s' = st_doc s /\ st_ret s' = st_ret s.
+Proof.
+  induction ps as [|[n e] r IH]; intros s fs Hfs Hok Hnd Hcur Hfl; cbn zeta.
+  - cbn. rewrite app_nil_r. auto.
+  - cbn [forallb] in Hok. apply andb_true_iff in Hok as [Hp Hok]. unfold param_ok in Hp. cbn [fst snd] in Hp. apply andb_true_iff in Hp as [Hn He].
+    cbn [map] in Hnd. inversion Hnd as [|? ? Hnr Hndr]; subst.
+    assert (Hf : forall n0 e0, st_cur s = Some (n0, e0) -> n0 <> n).
+    { intros n0 e0 E K. subst. apply (Hcur n e0 E). left. reflexivity. }
+    set (s1 := {| st_doc := st_doc s; st_params := flush s; st_ret := st_ret s; st_cur := Some (n, e) |}).
+    assert (F1 : flush s1 = flush s ++ [(n, e)]).
+    { unfold flush at 1. cbn [s1 st_cur st_params]. rewrite (name_ok_not_star n Hn). apply set_assoc_fresh. apply Hfl. left. reflexivity. }
+    destruct r as [|p2 r2].
+    + cbn [lines_params]. rewrite (fold_param_block s n e fs Hn He Hfs Hf). fold s1. rewrite F1. auto.
+    + change (lines_params ((n, e) :: p2 :: r2) fs) with (param_lines n e [NL; NL] ++ lines_params (p2 :: r2) fs).
+      rewrite map_app, fold_left_app, (fold_param_block s n e [NL; NL] Hn He eq_refl Hf). fold s1.
+      destruct (IH s1 fs Hfs Hok Hndr) as [A [B C]].
+      * intros n0 e0 E. cbn [s1 st_cur] in E. injection E as <- <-. exact Hnr.
+      * intros m Hm. rewrite F1, map_app, in_app_iff. cbn [map fst In]. intros [K|[K|[]]].
+        -- apply (Hfl m); [right; exact Hm | exact K].
+        -- subst. contradiction.
+      * rewrite A, F1, <- app_assoc. cbn [app]. cbn [s1 st_doc st_ret] in B, C. auto.
+Qed.
+
+(* ================= 7. parsing the canonical ReST text gives back the description ================= *)
+Definition all_lines (ps : list (str * pentry)) (ret : option pentry) : list (str * str) :=
+  match ret with
+  | None => lines_params ps [NL]
+  | Some r => lines_params ps [NL; NL] ++ ret_lines r [NL]
+  end.
+Definition render (doc : str) (ps : list (str * pentry)) (ret : option pentry) : str :=
+  (doc ++ [NL; NL]) ++ concat (map cat (all_lines ps ret)).
+
+Definition ret_ok (ret : option pentry) : bool := match ret with Some r => entry_ok r | None => true end.
+
+Lemma lines_params_ok : forall ps fs, forallb param_ok ps = true -> no_colon fs = true -> Forall line_ok (lines_params ps fs).
+Proof.
+  induction ps as [|[n e] r IH]; intros fs Hok Hfs; [constructor|].
+  cbn [forallb] in Hok. apply andb_true_iff in Hok as [Hp Hok]. unfold param_ok in Hp. cbn [fst snd] in Hp. apply andb_true_iff in Hp as [Hn He].
+  destruct r as [|p2 r2]; [exact (param_lines_ok n e fs Hn He Hfs)|].
+  change (lines_params ((n, e) :: p2 :: r2) fs) with (param_lines n e [NL; NL] ++ lines_params (p2 :: r2) fs).
+  apply Forall_app. split; [apply param_lines_ok; auto | apply IH; auto].
+Qed.
+
+Lemma all_lines_ok ps ret : forallb param_ok ps = true -> ret_ok ret = true -> Forall line_ok (all_lines ps ret).
+Proof.
+  intros Hp Hr. unfold all_lines. destruct ret as [r|]; [|apply lines_params_ok; auto].
+  apply Forall_app. split; [apply lines_params_ok; auto | apply ret_lines_ok; auto].
+Qed.
+
+Lemma param_lines_nonempty n e sep : entry_ok e = true -> param_lines n e sep <> [].
+Proof. unfold entry_ok, param_lines. destruct (pe_doc e), (pe_typ e); intro H; try discriminate. Qed.
+Lemma ret_lines_nonempty e sep : entry_ok e = true -> ret_lines e sep <> [].
+Proof. unfold entry_ok, ret_lines. destruct (pe_doc e), (pe_typ e); intro H; try discriminate. Qed.
+
+Lemma all_lines_nonempty ps ret : forallb param_ok ps = true -> ret_ok ret = true -> (ps <> [] \/ ret <> None) -> all_lines ps ret <> [].
+Proof.
+  intros Hp Hr Hne. unfold all_lines. destruct ret as [r|].
+  - intro E. apply app_eq_nil in E as [_ E]. exact (ret_lines_nonempty r [NL] Hr E).
+  - destruct Hne as [Hne|Hne]; [|contradiction]. destruct ps as [|[n e] rest]; [contradiction|].
+    cbn [forallb] in Hp. apply andb_true_iff in Hp as [Hp _]. unfold param_ok in Hp. apply andb_true_iff in Hp as [_ He]. cbn [snd] in He.
+    destruct rest as [|p2 r2]; [exact (param_lines_nonempty n e [NL] He)|].
+    change (lines_params ((n, e) :: p2 :: r2) [NL]) with (param_lines n e [NL; NL] ++ lines_params (p2 :: r2) [NL]).
+    intro E. apply app_eq_nil in E as [E _]. exact (param_lines_nonempty n e _ He E).
+Qed.
+
+Theorem parse_render doc ps ret :
+  clean doc = true -> forallb param_ok ps = true -> NoDup (map fst ps) -> ret_ok ret = true -> (ps <> [] \/ ret <> None) ->
+  parse_rest (render doc ps ret) = {| p_doc := doc; p_params := ps; p_ret := ret |}.
+Proof.
+  intros Hd Hp Hnd Hr Hne. destruct (clean_parts doc Hd) as [D1 [D2 D3]].
+  pose proof (all_lines_ok ps ret Hp Hr) as HL. pose proof (all_lines_nonempty ps ret Hp Hr Hne) as HN.
+  unfold parse_rest, render. destruct (all_lines ps ret) as [|tb L'] eqn:EL; [contradiction|].
+  rewrite (scan_lines (doc ++ [NL; NL]) tb L') by (try exact HL; rewrite no_colon_app, D3; reflexivity).
+  rewrite <- EL. cbn [fold_left].
+  set (s0 := {| st_doc := doc; st_params := []; st_ret := None; st_cur := None |}).
+  match goal with |- context [parse_seg init_state ?x] => assert (S0 : parse_seg init_state x = s0) end.
+  { cbn [parse_seg init_state st_doc st_params st_ret st_cur]. change (doc ++ [NL; NL]) with ([] ++ doc ++ [NL; NL]).
+    rewrite (strip_padded [] doc [NL; NL]) by (try reflexivity; assumption). reflexivity. }
+  rewrite S0.
+  change (map (fun x => (true, cat x)) (all_lines ps ret)) with (map seg_of (all_lines ps ret)).
+  unfold all_lines. destruct ret as [r|].
+  - rewrite map_app, fold_left_app.
+    destruct (fold_params ps s0 [NL; NL] eq_refl Hp Hnd) as [A [B C]]; [intros ? ? E; discriminate E | intros n _ K; exact K |].
+    set (s1 := fold_left parse_seg (map seg_of (lines_params ps [NL; NL])) s0) in *.
+    rewrite (fold_ret_lines s1 r [NL] Hr eq_refl C). cbn [st_doc st_ret]. unfold flush at 1. cbn [st_cur st_params].
+    fold (flush s1). rewrite A, B. reflexivity.
+  - destruct (fold_params ps s0 [NL] eq_refl Hp Hnd) as [A [B C]]; [intros ? ? E; discriminate E | intros n _ K; exact K |].
+    rewrite A, B, C. reflexivity.
+Qed.
